@@ -430,7 +430,10 @@ func checkHistory(r *ev.Run, ops []*opRec, finals map[string]ringState, ctx chec
 		} else {
 			r.Count("v2_failed_"+o.Kind, 1)
 			r.SetAdd("v2_failure_texts", o.Kind+": "+errClass(o.Err))
-			if injected(o.Err) {
+			if ctx.Prefix != "" && strings.Contains(o.Err, "i/o timeout") {
+				// go-redis' client-side timeout (wall clock) on a saturated machine; the outcome of the operation is unknown
+				r.Inconclusive("redis v2: a Redis command timed out on the client side (wall-clock timeout of go-redis; machine overloaded): workload=" + ctx.Workload)
+			} else if injected(o.Err) {
 				r.Count("v2_failed_by_injected_lock_fault", 1)
 			} else if !errorAllowed(o.Kind, o.Err) {
 				report(fmt.Sprintf("v2 %s failed with an error that is not a concurrency refusal: %s: backend=%s", o.Kind, errClass(o.Err), ctx.Backend),
